@@ -73,7 +73,7 @@ def pages_term(codes, oo, ns, o):
 
 
 BAD_PAGES = "(Some [[((-9, -9, -9), ([], false))]])"
-BAD_WRITE = "PAsk 999999 (BGet 0 []) (ORel None)"      # kind mismatch: no variant agrees
+BAD_WRITE = "PAsk 9998 (BGet 0 []) (ORel None)"      # kind mismatch: no variant agrees
 
 _SEEN = {}
 _UNEXPLAINED = None
@@ -94,6 +94,11 @@ def _term(c, o):
     dss = vlib.coq_list([str(c3.ds_code(o, d)) for d in c["datasets"] if d in (o.get("dsids") or {})])
     dead = o.get("outcome") != "ok"
     terms = []
+    pids = {}       # probe key (op index, or sub_pid of a probe inside a race op) -> small probe id (a nat in Coq)
+
+    def pid_new(key):
+        pids[key] = len(pids)
+        return pids[key]
 
     def obs_of(i):
         return o["ops"][i] if i < len(o.get("ops", [])) else {}
@@ -153,16 +158,16 @@ def _term(c, o):
                 for j, sub in enumerate(op.get(phase, [])):
                     so = subs[j] if j < len(subs) else {"err": "missing"}
                     probe, ob = probe_terms(sub, so, dead or bool(so.get("err") or so.get("panic")))
-                    terms.append("PAsk %d %s %s" % (sub_pid(i, phase, j), probe, ob))
+                    terms.append("PAsk %d %s %s" % (pid_new(sub_pid(i, phase, j)), probe, ob))
             terms.append(("PWrite (WTxn [(%d, %s)])" if op.get("first_txn") else "PWrite (WBatch %d %s)") % (dsc, ents_term(op["ents"], l1)))
             if bad:
                 terms.append(BAD_WRITE)
         elif k in ("get", "related"):
             probe, ob = probe_terms(op, oo, bad)
             if "_twin" in op:
-                terms.append("PPin %d %s" % (op["_twin"], ob))      # the probe itself is the one recorded under that id
+                terms.append("PPin %d %s" % (pids.get(op["_twin"], 9999), ob))      # the probe itself is the one recorded under that id
             else:
-                terms.append("PAsk %d %s %s" % (i, probe, ob))
+                terms.append("PAsk %d %s %s" % (pid_new(i), probe, ob))
         else:
             raise ValueError("op kind not handled: " + k)
     return "{| pc_ds := %s; pc_ops := %s |}" % (dss, vlib.coq_list(["\n  " + t for t in terms]))
